@@ -343,6 +343,10 @@ func init() {
 			for _, m := range []string{"  \u00a0admin\n\troot\n", "\fform\nfeed\n", "\u3000wide\nnarrow\n", " \t\u2003em\nen\n", "x\u00a0\ny\n", "##!> assemble\n  \u00a0in\n  out\n##!<\nlast\n"} {
 				cs = append(cs, &raCase{Prog: &ra.Program{Main: m, Lane: "pinned-leading-blanks", Files: ra.Files{Include: map[string]string{}, Exclude: map[string]string{}}}})
 			}
+			// an escaped parenthesis in front of flag-like text, in an expression that also gets a real flag group
+			for _, m := range []string{"a\\(?i:b.|c\n", "foo\\(?m:$|bar\n", "x.\ny\\(?s:z\n", "^k\\(?i:l|m\n", "a\\(?i:b\n.\n"} {
+				cs = append(cs, &raCase{Prog: &ra.Program{Main: m, Lane: "pinned-escaped-paren-with-flag-group", Files: ra.Files{Include: map[string]string{}, Exclude: map[string]string{}}}})
+			}
 			// an entry longer than a 4 KiB buffer, typed and produced by a definition
 			long := strings.Repeat("ab", 2100)
 			for _, m := range []string{long + "\nshort\n", "##!> define big " + long + "\nx{{big}}\nshort\n", "##!> assemble\n  " + long + "c\n  " + long + "d\n##!<\n"} {
